@@ -590,6 +590,11 @@ func (a *Agent) gatherCandidatesLocalUDPMux(ctx context.Context) error { //nolin
 			if !slices.Contains(networkTypes, NetworkTypeUDP6) {
 				continue
 			}
+			// Site-local and IPv4-compatible addresses are never candidates (RFC 8445 5.1.1.1),
+			// wherever the application made the mux listen.
+			if !isSupportedIPv6Partial(udpAddr.IP) {
+				continue
+			}
 		}
 
 		candidateIPs := []net.IP{udpAddr.IP}
